@@ -485,6 +485,33 @@ def stale_applications(h: History) -> list[dict[str, Any]]:
     return out
 
 
+def jump_stale_rearm(h: History) -> list[dict[str, Any]]:
+    """Jumps that re-armed a stage but not its synthetic children, because those children were created *after* the jump
+    handler had taken its message and computed what to reset (another worker started, planned and even finished the
+    stage in between; the jump's writes are version-checked on freshly loaded rows, so nothing fails): the re-armed
+    stage later sends StartStage to children that are still SUCCEEDED and waits for them forever."""
+    polled: dict[str, int] = {}
+    for r in h.audit:
+        if r["kind"] == "q_lock" and (r["extra"] or {}).get("a_new") != (r["extra"] or {}).get("a_old"):
+            polled[r["row_id"]] = r["seq"]            # last poll of each message
+    by_msg: dict[str, list[dict[str, Any]]] = {}
+    for r in h.audit:
+        if r["kind"] == "stage" and ctx_handler(r["ctx"]) == "JumpToStage" and r["new"] == "NOT_STARTED":
+            by_msg.setdefault(ctx_msgid(r["ctx"]), []).append(r)
+    out = []
+    for mid, rows in by_msg.items():
+        p0 = polled.get(mid)
+        if p0 is None:
+            continue
+        touched = {r["row_id"] for r in rows}
+        c0 = min(r["seq"] for r in rows)
+        for r in rows:
+            for cid, info in h.stage_info.items():
+                if info.get("parent") == r["row_id"] and p0 < info.get("ins_seq", 0) < c0 and cid not in touched:
+                    out.append({"stage": h.key_of_stage(r["row_id"]), "child": h.key_of_stage(cid), "seq": r["seq"]})
+    return out
+
+
 def skip_overtaken(h: History) -> list[str]:
     """Stages that were claimed (NOT_STARTED -> RUNNING) while a SkipStage message for them was live in the queue: an
     OR-split did not activate the branch and queued SkipStage, but a StartStage that found the stage "ready" was
